@@ -25,7 +25,7 @@ func init() {
 		Meta: report.Meta{
 			Property: "C09",
 			Rule: "D: every program of <=2 (quick) / 3 (thorough) statements over an alphabet of statements using dice / random / random_range in lines, sets, option conditions, if conditions, jump expressions and a drawing loop, x seeds (\"0\", \"00\", every one-character seed, a list of two-character, long and overflow-length seeds), all choice paths; " +
-				"each case is executed once as baseline and again after every history of <=2 unrelated activities from {another runner with the same seed drawing numbers, a runner with another seed, draws from and re-seeding of the global math/rand source, a failed load, the case itself}; complete observation trees, errors and final variable contents must be identical; " +
+				"an execution of a case = the run from the start plus the run of the same dialogue opened from a snapshot the host built itself (several variables, one entry holding no value, restored after one step); each case is executed once as baseline and again after every history of <=2 unrelated activities from {another runner with the same seed drawing numbers, a runner with another seed, draws from and re-seeding of the global math/rand source, a failed load, the case itself}; complete observation trees, errors and final variable contents must be identical; " +
 				"P: the digests of all cases are recomputed in 3 fresh child processes; R: for every seed incl. the empty one, dice(n), random_range(a,b) (incl. spans beyond 2^31) and random() drawn 50 times each and checked for integrality and range; " +
 				"a case is one (program, seed, history); non-trivial = the program draws at least one random number (always)",
 			StatesMean:  "distinct (program, seed, history) executions compared with their baseline; transitions = real Next calls",
